@@ -268,6 +268,10 @@ func propC12(g *G, n int) {
 			x = dec{lo, hi}
 		}
 		res := emit(0, "Decimal.MarshalBinary", []string{x.String()})
+		if _, c, be, sp := decode(x); !sp && i%2 == 0 {
+			// the same value made by the library itself from text, then marshalled
+			apiCall(0, "api.ParseBinary", []string{sBytes([]byte(fmt.Sprintf("%se%d", c.String(), be-6176)))})
+		}
 		recv := g.decimal()
 		apiCall(0, "api.BinRoundTrip", []string{x.String(), recv.String()})
 		if len(res) == 2 {
